@@ -23,7 +23,7 @@ EXHAUSTIVE = "thorough: all n! team permutations for n<=5 on base games; quick: 
 
 def floors(tier):
     q = tier == "quick"
-    return {"perm/mu": 150000 if q else 2000000, "perm/sigma": 150000 if q else 2000000}
+    return {"perm/mu": 150000 if q else 10000000, "perm/sigma": 150000 if q else 10000000}
 
 
 def order_preserving(rng, levels, perm):
@@ -40,7 +40,7 @@ def order_preserving(rng, levels, perm):
 
 
 def generate(ctx):
-    n = ctx.budget(16000, 200000)
+    n = ctx.budget(16000, 1000000)
     nperm = 3 if ctx.tier == "quick" else 6
     for _ in range(n):
         case, meta = gen.gen_case(ctx.rng, percall=True)
@@ -60,7 +60,7 @@ def generate(ctx):
             perms.append([tp, pp])
         yield "perm", dict(case=case, meta=meta, perms=perms)
     # exhaustive team permutations on base games
-    nbase = 1 if ctx.tier == "quick" else 6
+    nbase = 1 if ctx.tier == "quick" else 24
     kmax = 4 if ctx.tier == "quick" else 5
     idx = 0
     for m in MODEL_NAMES:
